@@ -5,6 +5,7 @@ package harness
 
 import (
 	"fmt"
+	"net/url"
 	"sort"
 	"strconv"
 	"strings"
@@ -122,7 +123,7 @@ var goodURIs = []string{"https://example.com/a", "http://hub.example.com/.identi
 	"https://a.b/c?d=e#f", "/relative/path", "urn:uuid:6ba7b810-9dad-11d1-80b4-00c04fd430c8", "HTTP://Upper.example", "https://example.com/%7Euser"}
 // akaURIs: also-known-as URIs, including spellings that are not fixed points of URL normalisation (the composer treats
 // them as plain strings)
-var akaURIs = []string{"HTTP://Upper.example", "https://example.com/zo\u00eb", "https://example.com/profile#", "https://example.com/a", "did:example:123",
+var akaURIs = []string{"HTTP://Upper.example", "http://Upper.example", "https://example.com/profile", "https://example.com/zo%C3%AB", "https://example.com/zo\u00eb", "https://example.com/profile#", "https://example.com/a", "did:example:123",
 	"http://hub.example.com/.identity/did:example:0123456789abcdef/", "https://a.b/c?d=e#f", "/relative/path", "urn:uuid:6ba7b810-9dad-11d1-80b4-00c04fd430c8", "https://example.com/a b"}
 
 var badEndpointURIs = []string{"", "::bad", "example.com", "http://[::1", "%zz", "rel/path", "http://a b.com/"}
@@ -196,8 +197,14 @@ func genURIList(t *rapid.T, min, max int) []interface{} {
 	var out []interface{}
 	for i := 0; i < n; i++ {
 		u := rapid.SampledFrom(akaURIs).Draw(t, "aka")
-		if !seen[u] {
-			seen[u] = true
+		// within one patch the validator treats URIs with the same normal form as duplicates; across patches they are
+		// different strings
+		norm := u
+		if pu, err := url.Parse(u); err == nil {
+			norm = pu.String()
+		}
+		if !seen[norm] {
+			seen[norm] = true
 			out = append(out, u)
 		}
 	}
